@@ -11,7 +11,7 @@ RULE = ("cases = (pair of equal-length arrays, dtype pair, ufunc) for all arrays
 ASSUMPTIONS = ["numpy on the decoded arrays is the reference (NaN matches NaN)", "float values are dyadic; only correctly rounded float ufuncs",
                "results must satisfy the run-length constructor invariant; two-operand results must have adjacent runs joined"]
 REQUIRED_FEATURES = ["boundaries_coincide", "boundaries_interleave", "boundaries_nested", "result_needs_rejoin", "scalar_left", "undefined_reference",
-                     "histogram", "concatenate", "reduction", "reduction_of_unjoined_array", "same_left_operand_sequence", "close_values_beyond_2**53"]
+                     "histogram", "concatenate", "reduction", "reduction_of_unjoined_array", "same_left_operand_sequence", "close_values_beyond_2**53", "nan_operands"]
 BOUNDS = {"quick": "all pairs of arrays L<=3 over 3 values x all pairs of {bool,int8,int64,uint8,float64} x 13 binary ufuncs; L=4 for int64 x int64 (5 ufuncs); "
                    "scalars {2, 2.5, True, np.int8(3), np.float32(1.5)} both sides x 13 ufuncs, 6 unary ufuncs, sum/any/all/max/mean, histogram (1-4 bins, with range), "
                    "concatenate of 2-3 arrays, for all arrays L<=4",
@@ -41,6 +41,9 @@ def shards(tier):
     out.append({"pair": ["f64close", "f64close"], "lmax": 3, "few": 1})
     out.append({"pair": ["f64close", "int64"], "lmax": 2, "few": 1})
     # 64-bit values next to each other beyond 2**53: numpy compares int64 with uint64 exactly, not through float64
+    # NaN / inf operands (NaN != NaN: a run boundary shared by both operands must still collapse), results that become NaN (inf - inf)
+    for p in (["f64nan", "f64nan"], ["f64nan", "float64"], ["int64", "f64nan"]):
+        out.append({"pair": p, "lmax": 3, "ufs": ["add", "subtract", "maximum", "multiply", "less", "equal"]})
     for p in (["i64big", "u64big"], ["u64big", "i64big"], ["u64big", "u64big"], ["i64big", "i64big"]):
         out.append({"pair": p, "lmax": 2, "ufs": ["equal", "not_equal", "less", "greater_equal", "maximum", "subtract", "bitwise_xor"]})
     return out
@@ -73,7 +76,7 @@ def cases(shard, tier):
     if "pair" in shard:
         d1, d2 = shard["pair"]
         ufs = shard.get("ufs") or (BINARY if not shard.get("few") else ["add", "maximum", "equal", "subtract", "logical_and"])
-        nv = lambda d: 3 if d in ("f64close", "i64big", "u64big") else len(VALS[d])
+        nv = lambda d: 3 if d in ("f64close", "i64big", "u64big", "f64nan") else len(VALS[d])
         for L in range(shard.get("lmin", 1), shard["lmax"] + 1):
             for t1 in itertools.product(range(nv(d1)), repeat=L):
                 for t2 in itertools.product(range(nv(d2)), repeat=L):
@@ -104,6 +107,9 @@ def cases(shard, tier):
                 yield ["hist", d1, list(t1), bins, None]
             yield ["hist", d1, list(t1), 3, [-1.0, 3.0]]
             yield ["hist", d1, list(t1), None, None]
+            yield ["hist", d1, list(t1), 2, [-1.0, 3.0], "density"]       # density, with elements outside the range for some alphabets
+            yield ["hist", d1, list(t1), 3, [0.5, 1.5], "density"]
+            yield ["hist", d1, list(t1), [0, 1, 4], None, "density"]      # explicit, unequal bin edges
             if L <= 3:
                 for L2 in (1, 2):
                     for t2 in itertools.product(range(len(VALS[d1])), repeat=L2):
@@ -113,6 +119,8 @@ def cases(shard, tier):
 def _arr(dt, t):
     if dt == "f64close":
         return np.array([CLOSE[i % 3] for i in t], dtype=np.float64)
+    if dt == "f64nan":
+        return np.array([[float("nan"), float("inf"), 1.0][i % 3] for i in t], dtype=np.float64)
     if dt == "i64big":
         acc_big = [2 ** 62 + 1, 2 ** 62, -5]
         return np.array([acc_big[i % 3] for i in t], dtype=np.int64)
@@ -161,6 +169,8 @@ def check(case, acc):
         run = lambda: f(ra, rb)
         joined = True
         excl = u in FLOAT_EXCLUDED and ("float64" in (d1, d2) or "f64close" in (d1, d2))
+        if "f64nan" in (d1, d2):
+            acc.feature("nan_operands")
         if "i64big" in (d1, d2) or "u64big" in (d1, d2):
             acc.feature("close_values_beyond_2**53")
     elif kind == "un":
@@ -325,6 +335,8 @@ def _check_hist(case, acc, a, ra):
     kw = {"bins": bins} if bins is not None else {}       # None: numpy's default number of bins
     if rng is not None:
         kw["range"] = tuple(rng)
+    if len(case) > 5:
+        kw["density"] = True
     try:
         e = np.histogram(a, **kw)
     except Exception:  # noqa: BLE001
